@@ -294,7 +294,10 @@ impl Ctx {
 }
 
 pub fn load_findings(verif_dir: &Path) -> Vec<Finding> {
-    let p = verif_dir.join("known_findings.jsonl");
+    // known_findings.txt, one finding per line:
+    //   known: property=<id> signature=<token> <what fails>
+    //   fixed: property=<id> <commit> <what failed>          (suppresses nothing)
+    let p = verif_dir.join("known_findings.txt");
     let mut out = Vec::new();
     if let Ok(s) = std::fs::read_to_string(&p) {
         for line in s.lines() {
@@ -302,15 +305,35 @@ pub fn load_findings(verif_dir: &Path) -> Vec<Finding> {
             if line.is_empty() || line.starts_with('#') {
                 continue;
             }
-            if let Ok(v) = serde_json::from_str::<Value>(line) {
-                out.push(Finding {
-                    status: v["status"].as_str().unwrap_or("").to_string(),
-                    property: v["property"].as_str().unwrap_or("").to_string(),
-                    signature: v["signature"].as_str().unwrap_or("").to_string(),
-                    what: v["what"].as_str().unwrap_or("").to_string(),
-                    commit: v["commit"].as_str().unwrap_or("").to_string(),
-                });
+            let (status, rest) = match line.split_once(':') {
+                Some((a, b)) => (a.trim(), b.trim()),
+                None => continue,
+            };
+            if status != "known" && status != "fixed" {
+                continue;
             }
+            let mut property = String::new();
+            let mut signature = String::new();
+            let mut commit = String::new();
+            let mut what: Vec<&str> = Vec::new();
+            for (i, tok) in rest.split_whitespace().enumerate() {
+                if let Some(v) = tok.strip_prefix("property=") {
+                    property = v.to_string();
+                } else if let Some(v) = tok.strip_prefix("signature=") {
+                    signature = v.to_string();
+                } else if status == "fixed" && i == 1 && commit.is_empty() {
+                    commit = tok.to_string();
+                } else {
+                    what.push(tok);
+                }
+            }
+            out.push(Finding {
+                status: status.to_string(),
+                property,
+                signature,
+                what: what.join(" "),
+                commit,
+            });
         }
     }
     out
